@@ -8,8 +8,9 @@ EXTENDS Xform, Json, IOUtils
 Rec == ndJsonDeserialize(IOEnv.TRACE)
 IsRot(e) == "op" \in DOMAIN e /\ e.op = "bigrot"
 IsOri(e) == "op" \in DOMAIN e /\ e.op = "orient"
-Bad == {k \in DOMAIN Rec : IF IsRot(Rec[k]) THEN ~RotAllowed(Rec[k]) ELSE IF IsOri(Rec[k]) THEN ~OrientAllowed(Rec[k]) ELSE ~Allowed(Rec[k])}
-Why(e) == IF IsRot(e) THEN "bigrot" ELSE IF IsOri(e) THEN "orient" ELSE IF ~CoreAllowed(e) THEN "core"
+IsM3(e) == "op" \in DOMAIN e /\ e.op = "m3"
+Bad == {k \in DOMAIN Rec : IF IsRot(Rec[k]) THEN ~RotAllowed(Rec[k]) ELSE IF IsOri(Rec[k]) THEN ~OrientAllowed(Rec[k]) ELSE IF IsM3(Rec[k]) THEN ~M3Allowed(Rec[k]) ELSE ~Allowed(Rec[k])}
+Why(e) == IF IsRot(e) THEN "bigrot" ELSE IF IsOri(e) THEN "orient" ELSE IF IsM3(e) THEN "m3" ELSE IF ~CoreAllowed(e) THEN "core"
           ELSE "vec_" \o VecClass(e, PathMat(e.path), Tol(MaxAbs(PathMat(e.path)) + 4))
 
 ASSUME PrintT(<<"TVSTAT", Len(Rec), Len(Rec)>>)
